@@ -189,13 +189,24 @@ func (client *OpenIDConnectClientConfig) CanRedirectToURL(redirectUrl string) (b
 	}
 	matchedDomain := false
 	for _, domain := range client.AllowedRedirectDomains {
-		matched := strings.HasSuffix(parsedURL.Hostname(), domain)
+		matched := hostnameInDomain(parsedURL.Hostname(), domain)
 		if matched {
 			matchedDomain = true
 			break
 		}
 	}
 	return matchedDomain && matchedRE, parsedURL, nil
+}
+
+// hostnameInDomain returns true if hostname is the domain (or hostname) given
+// or a subdomain of it. The match is done at a label boundary so that
+// "evilexample.com" does not match "example.com".
+func hostnameInDomain(hostname, domain string) bool {
+	domain = strings.TrimPrefix(domain, ".")
+	if domain == "" {
+		return false
+	}
+	return hostname == domain || strings.HasSuffix(hostname, "."+domain)
 }
 
 func (client *OpenIDConnectClientConfig) CorsOriginAllowed(origin string) (bool, error) {
@@ -208,7 +219,7 @@ func (client *OpenIDConnectClientConfig) CorsOriginAllowed(origin string) (bool,
 		return false, nil
 	}
 	for _, domain := range client.AllowedRedirectDomains {
-		matched := strings.HasSuffix(parsedURL.Hostname(), domain)
+		matched := hostnameInDomain(parsedURL.Hostname(), domain)
 		if matched {
 			return true, nil
 		}
@@ -240,7 +251,7 @@ func (state *RuntimeState) idpOpenIDCGenericIsCorsOriginAllowed(origin string) (
 	}
 	for _, client := range state.Config.OpenIDConnectIDP.Client {
 		for _, domain := range client.AllowedRedirectDomains {
-			matched := strings.HasSuffix(parsedURL.Hostname(), domain)
+			matched := hostnameInDomain(parsedURL.Hostname(), domain)
 			if matched {
 				return true, nil
 			}
